@@ -44,7 +44,7 @@ def confirm(pid, n):
         if ok:
             dst = f"{V}/benign/{pid}-b{n}"
             os.makedirs(dst, exist_ok=True)
-            rc, diff = sh(["git", "diff"], cwd=wt)
+            rc, diff = sh(["git", "diff", "HEAD"], cwd=wt)
             open(f"{dst}/patch.diff", "w").write(diff)
             meta = json.load(open(f"{src}/meta.json")) if os.path.exists(f"{src}/meta.json") else {}
             meta["property"] = pid
